@@ -1079,7 +1079,7 @@ def _k2n_obligations(tier) -> List[Ob]:
             big = host == 'integer'
             one(host, (), 4, AP, 300, near_maxlen=3 if big or t else 2)
             chain(host, 'n2-3', L23, 3, 1, 1, APN if big or t else AP, 300)
-            chain(host, 'n4', L4, 2, 1, 0, APN if big or t else AP, 300)
+            chain(host, 'n4', L4, 2, 1 if big or t else 0, 0, APN if big or t else AP, 300)
         else:
             for f in (K2_ALPHABET_T if t else K2_ALPHABET_M):
                 one(host, (f,), 6 if t else 5, APN if host == 'integer' else AP, 1200)
